@@ -68,6 +68,12 @@ Proof.
   - apply covers_four with (s := SUBCOMPONENT); simpl; auto 6.
   - apply covers_four with (s := REPETITION); simpl; auto 6.
 Qed.
+Print Assumptions C06_params_spec_letter_L.
+Print Assumptions C06_params_spec_letters.
+Print Assumptions C06_params_trans_letters.
+Print Assumptions C06_params_trunc_from_27.
+Print Assumptions C06_params_cover.
+Print Assumptions C06_params_letters_ok.
 Print Assumptions C06_no_delimiters.
 
 (* ... nor the truncation character, for the families that translate it (all classes from v2.7) *)
